@@ -883,10 +883,19 @@ def rule_queue_items_come_from_the_parser(ctx, rule='C04.m'):
             n += 1
             a = c.args[0]
             ok = False
+            if isinstance(a, ast.Name):
+                # a temporary bound once to the expression
+                defs = [x.value for x in walk_local(fn.node) if isinstance(x, ast.Assign) and len(x.targets) == 1 and
+                        isinstance(x.targets[0], ast.Name) and x.targets[0].id == a.id]
+                stores = [x for x in walk_local(fn.node) if isinstance(x, ast.Name) and x.id == a.id and
+                          isinstance(x.ctx, ast.Store)]
+                if len(defs) == 1 and len(stores) == 1 and isinstance(defs[0], ast.Call):
+                    name = defs[0].func.id if isinstance(defs[0].func, ast.Name) else getattr(defs[0].func, 'attr', '')
+                    ok = name in exc_names
             if isinstance(a, ast.Call):
                 name = a.func.id if isinstance(a.func, ast.Name) else getattr(a.func, 'attr', '')
                 ok = name in exc_names
-            elif isinstance(a, ast.Name):
+            elif isinstance(a, ast.Name) and not ok:
                 x = c
                 while x in parents and not ok:
                     p = parents[x]
@@ -894,11 +903,15 @@ def rule_queue_items_come_from_the_parser(ctx, rule='C04.m'):
                             p.target.id == a.id and isinstance(p.iter, ast.Call) and \
                             isinstance(p.iter.func, ast.Attribute) and p.iter.func.attr == 'receive_data':
                         ok = True
-                    if isinstance(p, ast.If) and x in p.body and isinstance(p.test, ast.Call) and \
-                            isinstance(p.test.func, ast.Name) and p.test.func.id == 'isinstance' and \
-                            len(p.test.args) == 2 and isinstance(p.test.args[0], ast.Name) and \
-                            p.test.args[0].id == a.id and 'Exception' in ast.unparse(p.test.args[1]):
-                        ok = True
+                    if isinstance(p, ast.If):
+                        t, positive = p.test, x in p.body
+                        while isinstance(t, ast.UnaryOp) and isinstance(t.op, ast.Not):
+                            t, positive = t.operand, not positive
+                        if positive and isinstance(t, ast.Call) and \
+                                isinstance(t.func, ast.Name) and t.func.id == 'isinstance' and \
+                                len(t.args) == 2 and isinstance(t.args[0], ast.Name) and \
+                                t.args[0].id == a.id and 'Exception' in ast.unparse(t.args[1]):
+                            ok = True
                     x = p
             if not ok:
                 bad.append((fn, c))
